@@ -11,4 +11,5 @@ CONSTANTS
   Depth = 12
   Loop = FALSE
   AddGate = FALSE
+  MaxHeal = 1
 CHECK_DEADLOCK FALSE
